@@ -852,7 +852,9 @@ class StoreGen:
                 self.nlabel = getattr(self, "nlabel", 0) + 1
                 self._c("dim:goto")
                 return ("nop", "goto L%d" % self.nlabel) if r.random() < 0.6 else ("label", "L%d" % self.nlabel)
-            if (d > 0 or r.random() < 0.25) and (self.p.scope in ERROR_SCOPES or r.random() < 0.1):
+            # like restart / return(state): not inside a FUNCTIONAL subroutine - a state produced there turns the
+            # function's value into value.Null, which is outside the model (wild programs keep them: oracle only)
+            if (d > 0 or r.random() < 0.25) and (self.p.scope in ERROR_SCOPES or r.random() < 0.1) and (fr["ret"] is None or self.wild):
                 self._c("dim:error")
                 code = r.choice([None, self.lit("I"), self.lit("I"), self.var(fr, "I")])
                 arg = None if code is None else r.choice([None, self.lit("S"), self.var(fr, "S")])
